@@ -13,17 +13,20 @@ open ExecSpec
 /-! ### the log only grows, by observations of the polled task at the current instant -/
 
 def LE (i : Nat) (s s' : St) : Prop :=
-  s'.now = s.now ∧ s'.silent = s.silent ∧ ∃ Δ, s'.log = Δ ++ s.log ∧ ∀ x ∈ Δ, x.time = s.now ∧ x.idx = i
+  s'.now = s.now ∧ s'.silent = s.silent ∧
+  ∃ Δ, s'.log = Δ ++ s.log ∧ s'.nobs = s.nobs + Δ.length ∧ ∀ x ∈ Δ, x.time = s.now ∧ x.idx = i
 
-theorem le_refl (i : Nat) (s : St) : LE i s s := ⟨rfl, rfl, [], rfl, fun x hx => by simp at hx⟩
+theorem le_refl (i : Nat) (s : St) : LE i s s := ⟨rfl, rfl, [], rfl, rfl, fun x hx => by simp at hx⟩
 
-theorem le_same (i : Nat) (s s' : St) (h1 : s'.now = s.now) (h2 : s'.silent = s.silent) (h3 : s'.log = s.log) :
-    LE i s s' := ⟨h1, h2, [], by simp [h3], fun x hx => by simp at hx⟩
+theorem le_same (i : Nat) (s s' : St) (h1 : s'.now = s.now) (h2 : s'.silent = s.silent) (h3 : s'.log = s.log)
+    (h4 : s'.nobs = s.nobs := by rfl) :
+    LE i s s' := ⟨h1, h2, [], by simp [h3], by simp [h4], fun x hx => by simp at hx⟩
 
 theorem le_trans {i : Nat} {a b c : St} (h1 : LE i a b) (h2 : LE i b c) : LE i a c := by
-  obtain ⟨n1, s1, Δ1, l1, p1⟩ := h1
-  obtain ⟨n2, s2, Δ2, l2, p2⟩ := h2
-  refine ⟨n2.trans n1, s2.trans s1, Δ2 ++ Δ1, by rw [l2, l1, List.append_assoc], ?_⟩
+  obtain ⟨n1, s1, Δ1, l1, c1, p1⟩ := h1
+  obtain ⟨n2, s2, Δ2, l2, c2, p2⟩ := h2
+  refine ⟨n2.trans n1, s2.trans s1, Δ2 ++ Δ1, by rw [l2, l1, List.append_assoc],
+    by rw [c2, c1, List.length_append]; omega, ?_⟩
   intro x hx
   rcases List.mem_append.1 hx with hx | hx
   · rw [← n1]; exact p2 x hx
@@ -40,7 +43,7 @@ theorem le_defer (i : Nat) (s : St) (k : Kind) (j : Nat) : LE i s (defer s k j) 
 theorem le_addTimer (i : Nat) (s : St) (tm : Timer) : LE i s (addTimer s tm) := le_same i _ _ rfl rfl rfl
 
 theorem le_logAt (s : St) (i rdy : Nat) (org : Phase) : LE i s (logAt s i rdy org) :=
-  ⟨rfl, rfl, [⟨s.now, i, rdy, org⟩], rfl, fun x hx => by simp at hx; subst hx; exact ⟨rfl, rfl⟩⟩
+  ⟨rfl, rfl, [⟨s.now, i, rdy, org⟩], rfl, rfl, fun x hx => by simp at hx; subst hx; exact ⟨rfl, rfl⟩⟩
 
 theorem le_setProg (i : Nat) (s : St) (j : Nat) (p : List Instr) : LE i s (setProg s j p) := by
   unfold setProg; split <;> exact le_same i _ _ rfl rfl rfl
@@ -742,11 +745,11 @@ theorem hist_of_log (s s' : St) (Δ : List LogEntry) (h : s'.log = Δ ++ s.log) 
   unfold hist
   rw [h, List.reverse_append, List.map_append]
 
-theorem newRecs_of_log (s s' : St) (Δ : List LogEntry) (h : s'.log = Δ ++ s.log) :
-    newRecs s s' = (Δ.reverse).map key := by
+theorem newRecs_of_log (s s' : St) (Δ : List LogEntry) (h : s'.log = Δ ++ s.log)
+    (hn : s'.nobs = s.nobs + Δ.length) : newRecs s s' = (Δ.reverse).map key := by
   unfold newRecs
-  rw [h]
-  simp
+  rw [h, hn, Nat.add_sub_cancel_left, List.take_left']
+  rfl
 
 /-- one (productive) poll of the model is one step of the specification -/
 theorem step_emu (P : Params) (q : Kind) (m σ : St) (hs : Sim m σ) (e : Entry) (m0 : St)
@@ -770,8 +773,8 @@ theorem step_emu (P : Params) (q : Kind) (m σ : St) (hs : Sim m σ) (e : Entry)
       exact List.Perm.cons_inv ((hpp.symm.trans s6).trans hperm)
     have hsim := sim_pollTask P e e' hidx.symm hsim0
     -- both polls extend the log by the same records
-    obtain ⟨n1, sl1, Δ, l1, q1⟩ := le_pollTask P e m0
-    obtain ⟨n2, sl2, Δ', l2, q2⟩ := le_pollTask P e' { σ1 with phase := .tick }
+    obtain ⟨n1, sl1, Δ, l1, c1, q1⟩ := le_pollTask P e m0
+    obtain ⟨n2, sl2, Δ', l2, c2, q2⟩ := le_pollTask P e' { σ1 with phase := .tick }
     have hk : Δ.map key = Δ'.map key := by
       have h5 := hsim.2.2.2.2.1
       rw [l1, l2, List.map_append, List.map_append] at h5
@@ -781,7 +784,7 @@ theorem step_emu (P : Params) (q : Kind) (m σ : St) (hs : Sim m σ) (e : Entry)
     -- the poll was productive
     have hne : Δ ≠ [] := by
       intro hnil
-      have hlen : (pollTask P e m0).log.length = m0.log.length := by rw [l1, hnil]; rfl
+      have hlen : (pollTask P e m0).nobs = m0.nobs := by rw [c1, hnil]; rfl
       have : (step P q m).silent = (pollTask P e m0).silent + 1 := by
         unfold step noteSilent; simp only [hp, hlen, if_true]
       rw [this, sl1, p6] at hprod
@@ -792,7 +795,7 @@ theorem step_emu (P : Params) (q : Kind) (m σ : St) (hs : Sim m σ) (e : Entry)
         rcases noteSilent_eq m0 (pollTask P e m0) with h | h <;> rw [h]
       rw [this, l1, p5]
     have hmade : newRecs σ1 (pollTask P e' { σ1 with phase := .tick }) = (Δ.reverse).map key := by
-      rw [newRecs_of_log σ1 _ Δ' l2, List.map_reverse, List.map_reverse, hk]
+      rw [newRecs_of_log σ1 _ Δ' l2 c2, List.map_reverse, List.map_reverse, hk]
     -- its first record is (now, e.idx)
     have hall : ∀ x ∈ (Δ.reverse).map key, x = (m.now, e.idx) := by
       intro x hx
